@@ -83,7 +83,7 @@ def _sub(rf, subst):
     return rf
 
 
-def _concrete_witness(rfs, subst):
+def _concrete_witness(rfs, subst, assume=()):
     """the rational functions mention symbols of lossy narrowing casts: find a length at which a cast really loses bits and evaluate
     everything there (k and every wrap symbol get their concrete values); returns (k, values) or None"""
     syms = set()
@@ -105,6 +105,23 @@ def _concrete_witness(rfs, subst):
                 lossy_here = True
         if not lossy_here:
             continue
+        # the witness must be a length this very path accepts: every configuration test the constructor and next() made holds there
+        ok = True
+        for kind, rf in assume:
+            try:
+                dd = wlin.p_eval(rf.d, env)
+                if dd == 0:
+                    ok = False
+                    break
+                val = wlin.p_eval(rf.n, env) / dd
+            except KeyError:
+                ok = False
+                break
+            if (kind == 'eq0' and val != 0) or (kind == 'ne0' and val == 0) or (kind == 'gt0' and not val > 0) or (kind == 'ge0' and not val >= 0):
+                ok = False
+                break
+        if not ok:
+            continue
         try:
             vals = []
             for x in rfs:
@@ -119,7 +136,7 @@ def _concrete_witness(rfs, subst):
     return None
 
 
-def _same(a, b, subst):
+def _same(a, b, subst, assume=()):
     if is_top(a) or is_top(b) or not isinstance(a, Aff) or not isinstance(b, Aff):
         return None
     try:
@@ -134,7 +151,11 @@ def _same(a, b, subst):
             syms |= wlin.p_syms(x.n) | wlin.p_syms(x.d)
         if syms <= {'k'}:
             return False
-        wit = _concrete_witness([aw, bw, ac, bc], subst)
+        # the difference itself may be free of them (they cancel): 3 - 1, k/(k+1) - 1, ...
+        dw, dc = aw - bw, ac - bc
+        if (dw.n and wlin.p_syms(dw.n) <= {'k'}) or (dc.n and wlin.p_syms(dc.n) <= {'k'}):
+            return False
+        wit = _concrete_witness([aw, bw, ac, bc], subst, assume)
         if wit is not None:
             k, (x1, x2, y1, y2) = wit
             if x1 != x2 or y1 != y2:
@@ -226,7 +247,7 @@ def analyse(m, impl, is_ma):
                     # output
                     want = Aff(True, ONE, ZERO)
                     if is_ma:
-                        same = _same(out, want, sub)
+                        same = _same(out, want, sub, crun.assume + run.assume)
                         if same is None:
                             unknown.append('output')
                         elif not same:
@@ -239,7 +260,7 @@ def analyse(m, impl, is_ma):
                         a, b = l0.get(p, TOP), l1.get(p, TOP)
                         if isinstance(a, Aff) and not a.lin and isinstance(b, Aff) and not b.lin and _same(a, b, sub):
                             continue
-                        same = _same(a, b, sub)
+                        same = _same(a, b, sub, crun.assume + run.assume)
                         if same is None:
                             if not (isinstance(a, wlin.Bool) or isinstance(b, wlin.Bool)):
                                 unknown.append('/'.join(p))
@@ -262,11 +283,11 @@ def analyse(m, impl, is_ma):
                         bad = None
                         for i, o in enumerate(outs):
                             if is_ma:
-                                sm = _same(o, want, sub)
+                                sm = _same(o, want, sub, crun.assume + run.assume)
                                 if sm is False:
                                     bad = 'step %d of a constant stream returns %s instead of the constant' % (i + 1, _show(o, sub))
                                     break
-                            sm = _same(o, outs[0], sub)
+                            sm = _same(o, outs[0], sub, crun.assume + run.assume)
                             if sm is False:
                                 bad = 'a constant stream gives %s at step 1 and %s at step %d' % (_show(outs[0], sub), _show(o, sub), i + 1)
                                 break
@@ -375,7 +396,21 @@ def _label(v, prefix=()):
                 _label(x, prefix + (k,))
 
 
-def _sign_for_all_lengths(rf):
+def _holds(assume, env):
+    for kind, rf in assume:
+        try:
+            dd = wlin.p_eval(rf.d, env)
+            if dd == 0:
+                return False
+            val = wlin.p_eval(rf.n, env) / dd
+        except KeyError:
+            return False
+        if (kind == 'eq0' and val != 0) or (kind == 'ne0' and val == 0) or (kind == 'gt0' and not val > 0) or (kind == 'ge0' and not val >= 0):
+            return False
+    return True
+
+
+def _sign_for_all_lengths(rf, assume=()):
     """'nonneg' when rf >= 0 for every k in the parameter range by a certificate (after the shift k = kmin + j both numerator and
     denominator have coefficients of one sign), ('neg', k) with a witness length, or None"""
     if wlin.p_syms(rf.n) | wlin.p_syms(rf.d) - {'k'} and not (wlin.p_syms(rf.n) | wlin.p_syms(rf.d)) <= {'k'}:
@@ -403,6 +438,8 @@ def _sign_for_all_lengths(rf):
         if d == 0:
             continue
         if wlin.p_eval(rf.n, {'k': k}) / d < 0:
+            if not _holds(assume, {'k': k}):
+                continue        # not a length this path accepts
             return ('neg', k)
     return 'nonneg' if kmax - kmin <= 4000 else None
 
@@ -459,7 +496,7 @@ def rule_L01_convex(ctx):
                             if not isinstance(val, Aff) or val.co is None:
                                 raise Abstain('%s: coefficients not tracked' % name)
                             for atom, coef in sorted(val.co.items()):
-                                sg = _sign_for_all_lengths(_sub(coef, sub))
+                                sg = _sign_for_all_lengths(_sub(coef, sub), crun.assume + run.assume)
                                 if sg is None:
                                     raise Abstain('%s: sign of the coefficient of %s not decided' % (name, atom))
                                 if sg != 'nonneg':
